@@ -194,6 +194,9 @@ func RunForStmt(ctx *Task, stmt *ast.ForStmt) (any, ast.DType, *errchain.PlError
 		if err != nil {
 			return nil, ast.Invalid, err
 		}
+		if ctx.procExit {
+			return nil, ast.Void, nil
+		}
 	}
 
 	for {
@@ -234,6 +237,9 @@ func RunForStmt(ctx *Task, stmt *ast.ForStmt) (any, ast.DType, *errchain.PlError
 			_, _, err := RunStmt(ctx, stmt.Loop)
 			if err != nil {
 				return nil, ast.Invalid, err
+			}
+			if ctx.procExit {
+				break
 			}
 		}
 	}
